@@ -24,6 +24,7 @@ def tryEnq (s : BSt) (ci : Nat) (st : Stmt) : BSt × Bool :=
   let th := s.th ci
   let r := qPrepareWrite s.cfg th.q st.size
   if r.2 then
+    let st := { st with enqAt := s.now }
     (s.setTh ci (fun t => { t with q := qFinishCommit s.cfg r.1 st.size, qStmts := t.qStmts ++ [st],
                                    accepted := t.accepted ++ [st] }), true)
   else (s.setTh ci (fun t => { t with q := r.1 }), false)
@@ -211,7 +212,8 @@ def cleanupLoggers (s : BSt) : BSt :=
   let (s1, removed) := order.foldl step (s0, [])
   removed.foldl (fun s gid =>
     match s.removalFlags.find? (·.1 = gid) with
-    | some (_, f) => { s with flags := f :: s.flags, removalFlags := s.removalFlags.filter (·.1 ≠ gid) }
+    | some (_, f) => { s with flags := f :: s.flags, flagLog := (f, s.log.length) :: s.flagLog,
+                              removalFlags := s.removalFlags.filter (·.1 ≠ gid) }
     | none => s) s1
 
 /-! ### backend: reading a queue, processing an event -/
@@ -296,12 +298,12 @@ def processLowest (inj : BSt → Nat → BSt) (s : BSt) : BSt × Bool :=
     | st :: rest =>
       let (s1, exc, flag) := processEvent s st
       let s2 := match exc with | some m => s1.emit (.notify m) | none => s1
-      let s3 := s2.setTh i (fun t => { t with buf := rest, popped := t.popped ++ [st] })
+      let s3 := { s2.setTh i (fun t => { t with buf := rest, popped := t.popped ++ [st] }) with popLog := st :: s2.popLog }
       match flag with
       | some f =>
         let s3' := if s3.cfg.reportBeforeFlushCleanup then checkFailures inj s3 else s3
         let s4 := cleanupContexts s3'
-        ({ s4 with flags := f :: s4.flags }, true)
+        ({ s4 with flags := f :: s4.flags, flagLog := (f, s4.log.length) :: s4.flagLog }, true)
       | none => (s3, true)
 
 /-- `has_pending_events_for_caching_when_transit_event_buffer_empty` -/
